@@ -1,5 +1,6 @@
 import EmmyVerif.Gen.FeaturesKeywords
 import EmmyVerif.Model.Features
+import EmmyVerif.Model.NumLexString
 /-!
 # Reserved words per language level (hand-written specification)
 
@@ -37,5 +38,24 @@ def manualKind (l : Level) (w : Word) : Tok :=
   match alwaysReserved w with
   | some t => t
   | none => if w = .w_goto ∧ gotoReserved l = true then .TkGoto else .TkName
+
+/-! ## String escapes per level (hand-written from the manuals' "Lexical Conventions")
+
+* every level: `\a \b \f \n \r \t \v \\ \" \'`, backslash + line break, `\ddd` (at most 255);
+* Lua 5.1: a backslash before any other character just yields that character;
+* Lua 5.2 added `\z` and `\xXX` (and made every other escape an error); LuaJIT 2 has both;
+* Lua 5.3 added `\u{XXX}` (at most 10FFFF in 5.3 and in LuaJIT 2.1, below 2^31 from Lua 5.4 on). -/
+
+def escCfg : Level → StrLex.EscCfg
+  | .Lua51 => ⟨true, false, 0x10FFFF⟩
+  | .Lua52 => ⟨false, false, 0x10FFFF⟩
+  | .Lua53 => ⟨false, true, 0x10FFFF⟩
+  | .Lua54 | .Lua55 => ⟨false, true, 0x7FFFFFFF⟩
+  | .LuaJIT2 | .LuaJIT | .LuaJIT3 => ⟨false, true, 0x10FFFF⟩
+
+/-- does the lexer treat `\z` as the skip-white-space escape -/
+def zskip : Level → Bool
+  | .Lua51 => false
+  | _ => true
 
 end Features
